@@ -218,3 +218,36 @@ Proof.
   - inversion E; subst. apply andb_true_iff in F, F'. destruct F as [_ F], F' as [_ F'].
     destruct (IH r' H1 F F' S S') as [-> ->]. auto.
 Qed.
+
+(* ---------- completeness: every stream the spec allows is the one the tokenizer returns ---------- *)
+Lemma span_app f run rest : forallb f run = true -> starts_with f rest = false -> span f (run ++ rest) = (run, rest).
+Proof.
+  induction run as [|c r IH]; cbn [app forallb]; intros F S.
+  - destruct rest as [|d rest']; [reflexivity|]. cbn [span]. cbn [starts_with] in S. now rewrite S.
+  - apply andb_true_iff in F. destruct F as [Fc Fr]. cbn [span]. rewrite Fc, (IH Fr S). reflexivity.
+Qed.
+Lemma op_of_spec c k : In (c,k) spec_ops -> op_of c = Some (k, [norm c]).
+Proof. intros H. simpl in H. repeat (destruct H as [H|H]; [inversion H; subst; reflexivity|]). contradiction. Qed.
+Theorem lex_complete kp s ts : LexSpec kp s ts -> forall fuel, (length s < fuel)%nat -> lex fuel kp s = LOk ts.
+Proof.
+  induction 1 as [|run rest ts Hne Hf Hs Hr IH|run rest ts Hne Hf Hs Hn Hin Hr IH|run rest ts Hne Hf Hs Hn Hin Hr IH|c rest k ts Hn Ha Hin Hk Hr IH|c rest ts Hn Ha Hin Hr IH];
+    intros [|fuel] L; try (cbn [length] in L; lia).
+  - reflexivity.
+  - destruct run as [|c run']; [contradiction|]. cbn [app lex]. cbn [forallb] in Hf. apply andb_true_iff in Hf. destruct Hf as [Hc Hf'].
+    rewrite Hc. change (c :: run' ++ rest) with ((c :: run') ++ rest). rewrite span_app; [|cbn [forallb]; now rewrite Hc, Hf'|exact Hs].
+    rewrite IH; [reflexivity|]. rewrite app_length in L. cbn [length] in L. lia.
+  - destruct run as [|c run']; [contradiction|]. cbn [app lex]. cbn [forallb] in Hf. apply andb_true_iff in Hf. destruct Hf as [Hc Hf'].
+    cbn [starts_with] in Hn. rewrite Hn, Hc. change (c :: run' ++ rest) with ((c :: run') ++ rest). rewrite span_app; [|cbn [forallb]; now rewrite Hc, Hf'|exact Hs].
+    apply is_function_name_iff in Hin. rewrite Hin. rewrite IH; [reflexivity|]. rewrite app_length in L. cbn [length] in L. lia.
+  - destruct run as [|c run']; [contradiction|]. cbn [app lex]. cbn [forallb] in Hf. apply andb_true_iff in Hf. destruct Hf as [Hc Hf'].
+    cbn [starts_with] in Hn. rewrite Hn, Hc. change (c :: run' ++ rest) with ((c :: run') ++ rest). rewrite span_app; [|cbn [forallb]; now rewrite Hc, Hf'|exact Hs].
+    destruct (is_function_name (c :: run')) eqn:E; [apply is_function_name_iff in E; contradiction|].
+    rewrite IH; [reflexivity|]. rewrite app_length in L. cbn [length] in L. lia.
+  - cbn [lex]. rewrite Hn, Ha, (op_of_spec c k Hin). cbn [tl]. rewrite IH; [|cbn [length] in L; lia].
+    destruct k; try reflexivity. contradiction.
+  - cbn [lex]. rewrite Hn, Ha, (op_of_spec c TPad Hin). cbn [tl]. rewrite IH; [|cbn [length] in L; lia].
+    destruct kp; cbn [negb]; [|reflexivity]. f_equal. f_equal. f_equal. f_equal.
+    simpl in Hin. repeat (destruct Hin as [Hin|Hin]; [inversion Hin; subst; reflexivity|]). contradiction.
+Qed.
+Corollary tokenize_complete ex s ts : LexSpec (negb ex) s ts -> tokenize ex s = LOk ts.
+Proof. intros H. unfold tokenize. apply lex_complete; [exact H|lia]. Qed.
